@@ -4,7 +4,6 @@ import (
 	"6502profiler/emuconfig"
 	"6502profiler/memory"
 	"fmt"
-	"os"
 	"strconv"
 	"strings"
 	"verifharness/internal/rng"
@@ -258,23 +257,14 @@ func imageOf(spec string, m memory.Memory) string {
 	return b.String()
 }
 
-// memReplay re-executes the operations of stored request lines
-func memReplay(file string) {
-	data, err := os.ReadFile(file)
-	if err != nil {
-		fmt.Fprintln(os.Stderr, err)
-		os.Exit(2)
+func memReplayLine(req string) {
+	parts := strings.SplitN(req, "|", 2)
+	hd := strings.Fields(parts[0])
+	if len(hd) != 3 || hd[0] != "mem" || len(parts) != 2 {
+		return
 	}
-	for _, line := range strings.Split(string(data), "\n") {
-		req := strings.SplitN(line, "=>", 2)[0]
-		parts := strings.SplitN(req, "|", 2)
-		hd := strings.Fields(parts[0])
-		if len(hd) != 3 || hd[0] != "mem" || len(parts) != 2 {
-			continue
-		}
-		flavour, _ := strconv.Atoi(hd[2])
-		emit(memExec(hd[1], flavour, strings.Fields(parts[1])))
-	}
+	flavour, _ := strconv.Atoi(hd[2])
+	emit(memExec(hd[1], flavour, strings.Fields(parts[1])))
 }
 
 // memExec executes operation tokens on a fresh machine
